@@ -30,6 +30,7 @@ def run(ctx):
                         "stress runs cover the interleavings the Go runtime produces over seeds"]
     ctx.sany("rtmp", "RtmpTxnConc")
     ctx.tlc("rtmp", "MC_RtmpTxnConc", "MC_TxnConc.cfg", coverage=(t == "thorough"))
+    ctx.tlc("rtmp", "MC_RtmpTxnConc", "MC_TxnConc_fail.cfg")
     ctx.tlc("rtmp", "MC_RtmpTxnConc", "MC_TxnConc_deviation.cfg", expect_violation="NoSpurious", count_states=False)
 
     racedir = os.path.join(ctx.out, "race")
@@ -38,6 +39,7 @@ def run(ctx):
 
     cases = os.path.join(ctx.out, "schedules.ndjson")
     gens = ["Gen_TxnConc.quick.cfg", "Gen_TxnConc_nodup.quick.cfg"] if t == "quick" else ["Gen_TxnConc.thorough.cfg"]
+    gens.append("Gen_TxnConc_fail.cfg")   # a transport write that fails, for a request re-using an outstanding id
     for g in gens:
         ctx.tlc("rtmp", "MC_RtmpTxnConc", g, cases_to=cases, count_states=False)
     res = ctx.replay("sched", cases, race=True, env_extra=env)
